@@ -177,6 +177,16 @@ class C13(Prop):
                     m.update(t0, [('x', 0.0)])
                 m.reset()
                 v.info['after-reset-runs'] = 1
+                if n % 2 == 0:
+                    # a second earlier episode (out-of-tolerance gaps after the first reset()), and a second reset()
+                    for j in range(4):
+                        m.update(float(Fr(j * j) * P * 3), [('x', 0.0)])
+                    m.reset()
+                    if m.counter != 0:
+                        v.bad('counter-after-second-reset', 'period=%s%s unit=%s: counter=%r right after the second reset()' % (
+                            period, punit, unit, m.counter))
+                        return v
+                    v.info['two-earlier-episodes'] = 1
             fail_at = case.get('fail_at')
             if case['mode'].startswith('online') and fail_at is not None:
                 out = []
